@@ -41,7 +41,7 @@ def cases(ctx):
                     L.append(G.plant("%s/c" % d, "x", mtime=G.T0 + 2))
                     if rd:
                         L.append(G.plant(G.key_path(rd[0], "r0", key), "P"))
-                    L.append(G.FIRE + " sharddraws=0,1,2,3")
+                    L.append(G.FIRE)
                     L.append(G.op(0, opk[0], key, *opk[1:]))
                     out.append((("peak", w[0], chk, opk[0] + ":" + str(opk[1:2]), len(rd)), L))
     # many redundant copies under a checker: still at most three at once
